@@ -20,7 +20,7 @@ RULE = ("well-formed server streams of 5..80 def*/set*/delProperty/message/ping/
         "every Buffer.process call runs under a step budget. In the byte-stream modes one message in eight is preceded by an update of a known property that carries no state and no element: the mirror must stay as it is. non-trivial = a stream in which at least 3 messages changed the mirror; "
         "distinct = hash(stream, spelling seed, fragmentation, mode)")
 ASSUMPTIONS = ["messages on a control-mode connection stay below its 2048-character threshold (BLOB-mode connections get payloads up to 6000 bytes)", "BLOB sizes in the stream are consistent with their payloads"]
-REQUIRED_EVENTS = ["updates_without_a_state_ahead_of_a_message", "streams", "messages_applied", "views_compared", "wire_mode_streams", "direct_mode_streams", "snoop_mode_streams", "client_mode_streams",
+REQUIRED_EVENTS = ["streams_with_passive_listeners", "updates_without_a_state_ahead_of_a_message", "streams", "messages_applied", "views_compared", "wire_mode_streams", "direct_mode_streams", "snoop_mode_streams", "client_mode_streams",
                    "whole_device_deletions", "redefinitions", "empty_blob_payloads"]
 QUICK_SHARDS = 4
 FRAGS = ["whole", "1", "random", "small", 1024]
@@ -73,6 +73,24 @@ async def run_stream(ctx, case):
             task = loop.create_task(handler.wait_for_messages())
         frag = case["frag"]
         frng = ctx.rng("frag", case["i"])
+        if case["i"] % 2 == 0:
+            # an application listening: passive callbacks filtered by every combination of device / property / element and event type -
+            # a filter may name a lower level and leave the upper ones open.  They observe; the mirror and the receive loop are judged.
+            from indi.client import events as CE
+            seen_events = []
+            crng = ctx.rng("listeners", case["i"])
+            for _ in range(crng.choice([2, 4, 7])):
+                kw = {}
+                if crng.random() < 0.5:
+                    kw["device"] = crng.choice(X.DEVICES)
+                if crng.random() < 0.5:
+                    kw["vector"] = crng.choice(X.PROPS)
+                if crng.random() < 0.6:
+                    kw["element"] = crng.choice(X.ELEMS)
+                if crng.random() < 0.5:
+                    kw["event_type"] = crng.choice([CE.ValueUpdate, CE.StateUpdate, CE.DefinitionUpdate, CE.BaseEvent])
+                client.onevent(callback=seen_events.append, **kw)
+            ctx.count("streams_with_passive_listeners")
         ctx.count("streams")
         ctx.count(mode.split("-")[0] + "_mode_streams")
         for k, am in enumerate(msgs):
